@@ -87,6 +87,39 @@ def emptiness_edge(test, operand):
     return None
 
 
+def per_file_offset_rule(index, rep, rid):
+    """The burn-in (tree_offset) applies to EACH file.  Both multi-file readers - TreeArray.read_from_files and
+    sumtrees' serial reader - must count trees within the current file: the counter compared with the offset is
+    reset when the yielder's current_file_index changes and advanced once per tree; it is not the loop's running index."""
+    n = 0
+    for q in ("dendropy.datamodel.treecollectionmodel.TreeArray.read_from_files", "dendropy.application.sumtrees._read_into_tree_array"):
+        fi = index.function(q)
+        loops = [l for l in ast.walk(fi.node) if isinstance(l, ast.For) and any(isinstance(c, ast.Call) and call_name(c) == "add_tree" for c in ast.walk(l))]
+        if len(loops) != 1:
+            raise AnalysisError("%s: %s: the tree loop was not recognised" % (rid, q))
+        loop = loops[0]
+        guards = []
+        for iff in ast.walk(loop):
+            if isinstance(iff, ast.If) and any(isinstance(c, ast.Call) and call_name(c) == "add_tree" for st in iff.body for c in ast.walk(st)):
+                cp = compare_parts(iff.test)
+                if cp and cp[1] in ("GtE", "Gt") and isinstance(cp[0], ast.Name):
+                    guards.append((iff, cp[0].id))
+        if not guards:
+            raise AnalysisError("%s: %s: the burn-in comparison guarding add_tree was not recognised" % (rid, q))
+        fileidx = {a.targets[0].id for a in ast.walk(loop) if isinstance(a, ast.Assign) and isinstance(a.targets[0], ast.Name) and norm(a.value).endswith(".current_file_index")}
+        for iff, x in guards:
+            n += 1
+            loop_targets = {t.id for t in ast.walk(loop.target) if isinstance(t, ast.Name)}
+            resets = [a for i2 in ast.walk(loop) if isinstance(i2, ast.If) and names_in(i2.test) & fileidx for st in i2.body for a in ast.walk(st)
+                      if isinstance(a, ast.Assign) and norm(a.targets[0]) == x and const_value(a.value, None) == 0]
+            incs = [a for a in ast.walk(loop) if isinstance(a, ast.AugAssign) and norm(a.target) == x and isinstance(a.op, ast.Add) and const_value(a.value, None) == 1]
+            ok = x not in loop_targets and bool(resets) and len(incs) == 1
+            why = "it is the loop's running index over all files" if x in loop_targets else ("it is not reset when the current file changes" if not resets else "it is not advanced exactly once per tree")
+            rep.check(ok, rid, fi.qualname, "burn-in counter `%s`: %s" % (x, why), fn_where(fi, iff), "%s: the burn-in counter is reset per file and advanced once per tree" % fi.name,
+                      "%s compares `%s` with the burn-in, but %s: with more than one input file the burn-in is applied to the first file only (or to a different number of trees), so the serial route analyses a different set of trees from the per-file workers and the summaries differ with the number of processes" % (fi.qualname, x, why))
+    return n
+
+
 def run(index, rep, tier):
     rep.rule("R06.1", "TreeArray: every length-changing operation on one of the four parallel per-tree lists is matched by the same operation on the other three on every path")
     rep.rule("R06.2", "every field the accumulate-one function writes is merged by each merge function (SplitDistribution.update; TreeArray.update/extend)")
@@ -122,6 +155,11 @@ def run(index, rep, tier):
                               "%s merges field %s written by %s" % (mfi.name, f, afi.name),
                               "%s accumulates into self.%s for every tree but %s neither merges nor compares that field: data of partitioned runs is silently lost"
                               % (afi.qualname, f, mfi.qualname))
+
+    # ---- R06.7
+    with rep.section("R06.7"):
+        rep.rule("R06.7", "burn-in is per file on every route: the counter compared with tree_offset in TreeArray.read_from_files and in sumtrees' serial reader is reset when the current file changes and advanced once per tree")
+        rep.floor("R06.7", "burn-in guards in the multi-file readers", 2, per_file_offset_rule(index, rep, "R06.7"))
 
     # ---- R06.6 merge copies, never aliases
     with rep.section("R06.6 merge copies, never aliases"):
